@@ -195,8 +195,27 @@ fn replace(root: &Value, path: &[PathSeg], new: Value) -> Value {
     r
 }
 
+/// Floats with an integral value are written as integers (what `JSON.stringify` does), so that a value that
+/// moves into an integer position stays representable.
+pub fn integral_floats_to_ints(v: &mut Value) {
+    match v {
+        Value::Number(n) => {
+            if n.is_f64() {
+                let f = n.as_f64().unwrap();
+                if f.fract() == 0.0 && f.abs() < 1e15 {
+                    *v = Value::from(f as i64);
+                }
+            }
+        }
+        Value::Array(a) => a.iter_mut().for_each(integral_floats_to_ints),
+        Value::Object(m) => m.values_mut().for_each(integral_floats_to_ints),
+        _ => {}
+    }
+}
+
 pub fn c02(args: &Args, reg: &[TypeEntry], log: &mut Log) {
     let cap = if args.thorough() { 400 } else { 150 };
+    crate::samples::SAFE_LEAVES.store(true, std::sync::atomic::Ordering::Relaxed);
     for e in reg {
         let Some(s) = &e.serde else { continue };
         let Some(roundtrip) = s.roundtrip else { continue };
@@ -214,6 +233,10 @@ pub fn c02(args: &Args, reg: &[TypeEntry], log: &mut Log) {
             .unwrap_or_default()
             .into_iter()
             .filter_map(|r| r.ok())
+            .map(|mut v| {
+                integral_floats_to_ints(&mut v);
+                v
+            })
             .collect();
         let mut excluded: Option<String> = None;
         for sv in &samples {
